@@ -1,11 +1,30 @@
 import LexVerif.Spec.Shortest
 import LexVerif.Model.FormatDecimal
+import LexVerif.Model.Dragonbox
+import LexVerif.Props.RoundNE
+import LexVerif.Props.TablesWrite
+import LexVerif.Proof.DragonboxLogs
+import LexVerif.Proof.DragonboxArith
+import LexVerif.Proof.DragonboxTrailing
+import LexVerif.Proof.DragonboxSpec
+import LexVerif.Proof.DragonboxShorterA
+import LexVerif.Proof.DragonboxShorterB
+import LexVerif.Proof.DragonboxShorterC
+import LexVerif.Proof.DragonboxShorterD
+import LexVerif.Proof.GrisuCached
+import LexVerif.Proof.GrisuSpec
 /-!
 # C02 — float→decimal output round-trips exactly and is shortest (property theorems)
 
 The oracle is `Spec.shortest`; its sanity theorems are in `Props/RoundNE.lean`, the cache / log-table
 theorems in `Props/TablesWrite.lean`. Here: facts about the formatting layer on which the byte-level
-comparison relies.
+comparison relies, and — section "Dragonbox" — theorems about the Lean model of `algorithm.rs`
+(`Model/Dragonbox.lean`, tied to the code by the `td` component correspondence):
+* the five `floor_log*` literal formulas are the true floor logarithms on their documented domains;
+* the arithmetic kernels (`umul*`, `divide_by_pow10`, `check_div_pow10`, `div_pow10`, `remove_trailing_zeros`) are exact
+  for ALL inputs in their stated ranges;
+* `dragonbox_correct` (full statement, a `Prop`) and `dragonbox_correct_shorter_partial`: the
+  `compute_nearest_shorter` branch (every float with a zero mantissa field, both types) returns a pair of `Spec.shortest`.
 -/
 namespace LexVerif.Props.C02
 open LexVerif.Spec LexVerif.Model
@@ -22,5 +41,265 @@ theorem interval_contains_value (f : Fmt) (bits : Nat) :
   constructor
   · simp only; split <;> omega
   · simp only; omega
+
+/-! ## Dragonbox -/
+section Dragonbox
+open LexVerif.Model.Dragonbox LexVerif.Proof.DragonboxSpec LexVerif.Proof LexVerif.Spec.Tables
+open LexVerif.Gen.Dragonbox LexVerif.Proof.RoundNE
+
+/-! ### the logarithm approximations: literal formula = dumped table = true floor logarithm -/
+
+theorem floorLog5Pow2_true (q : Int) (h1 : -1492 ≤ q) (h2 : q ≤ 1492) : IsFloorLog5Pow2 q (floorLog5Pow2 q) := by
+  rw [DragonboxLogs.floorLog5Pow2_eq q h1 h2]; exact TablesWrite.floor_log5_pow2_exact q h1 h2
+
+theorem floorLog10Pow2_true (q : Int) (h1 : -1700 ≤ q) (h2 : q ≤ 1700) : IsFloorLog10Pow2 q (floorLog10Pow2 q) := by
+  rw [DragonboxLogs.floorLog10Pow2_eq q h1 h2]; exact TablesWrite.floor_log10_pow2_exact q h1 h2
+
+theorem floorLog2Pow10_true (q : Int) (h1 : -1233 ≤ q) (h2 : q ≤ 1233) : IsFloorLog2Pow10 q (floorLog2Pow10 q) := by
+  rw [DragonboxLogs.floorLog2Pow10_eq q h1 h2]; exact TablesWrite.floor_log2_pow10_exact q h1 h2
+
+theorem floorLog5Pow2MinusLog5_3_true (q : Int) (h1 : -2427 ≤ q) (h2 : q ≤ 2427) :
+    IsFloorLog5Pow2MinusLog5_3 q (floorLog5Pow2MinusLog5_3 q) := by
+  rw [DragonboxLogs.floorLog5Pow2MinusLog5_3_eq q h1 h2]
+  exact TablesWrite.floor_log5_pow2_minus_log5_3_exact q h1 h2
+
+/-- in particular at `-295` and `97`, where the source comment claims the formula is off: it is exact on all of
+`[-1700, 1700]`, which contains every binary exponent of a finite float -/
+theorem floorLog10Pow2MinusLog10_4Over3_true (q : Int) (h1 : -1700 ≤ q) (h2 : q ≤ 1700) :
+    IsFloorLog10Pow2MinusLog10_4Over3 q (floorLog10Pow2MinusLog10_4Over3 q) := by
+  rw [DragonboxLogs.floorLog10Pow2MinusLog10_4Over3_eq q h1 h2]
+  exact TablesWrite.floor_log10_pow2_minus_log10_4_over_3_exact q h1 h2
+
+/-- the per-type constants dumped from the crate are the source formulas evaluated with the model's `floor_log*`
+(current code: `DIV_BY_5_THRESHOLD` after fix 9f5296f is 39 / 86, not `floor_log2_pow10(kappa + 1)` = 6 / 9) -/
+theorem dragonbox_model_consts :
+    F32.fcPmHalfLower = -F32.kappa - floorLog5Pow2 F32.kappa
+    ∧ F64.fcPmHalfLower = -F64.kappa - floorLog5Pow2 F64.kappa
+    ∧ F32.divBy5Threshold = floorLog2Pow10 (floorLog5Pow2 (F32.mantissaSize + 2) + F32.kappa + 1)
+    ∧ F64.divBy5Threshold = floorLog2Pow10 (floorLog5Pow2 (F64.mantissaSize + 2) + F64.kappa + 1)
+    ∧ F32.divBy5Threshold = 39 ∧ F64.divBy5Threshold = 86
+    ∧ floorLog2Pow10 (F32.kappa + 1) = 6 ∧ floorLog2Pow10 (F64.kappa + 1) = 9 := by decide
+
+/-- the endpoint tests of the shorter-interval case, as computed by the model (`count_factors`, `pow64`, `floor_log2`
+loops), agree with the lists dumped from the crate on every exponent of the dump range -/
+theorem endpoints_match_dump :
+    (∀ e ∈ (List.range 256).map (fun i => (i : Int) - 150),
+        isRightEndpoint .f32 e = F32.rightEndpoints.contains e ∧ isLeftEndpoint .f32 e = F32.leftEndpoints.contains e)
+    ∧ (∀ e ∈ (List.range 2048).map (fun i => (i : Int) - 1075),
+        isRightEndpoint .f64 e = F64.rightEndpoints.contains e ∧ isLeftEndpoint .f64 e = F64.leftEndpoints.contains e) := by
+  decide +kernel
+
+/-! ### arithmetic kernels, all inputs -/
+
+/-- `umul128_upper64(x, y) = ⌊x·y / 2^64⌋` -/
+theorem umul128_upper64_exact {x y : Nat} (hx : x < 2 ^ 64) (hy : y < 2 ^ 64) :
+    umul128Upper64 x y = x * y / 2 ^ 64 := DragonboxArith.umul128Upper64_eq hx hy
+
+/-- `umul192_upper128` = bits 64..191 of the exact 192-bit product -/
+theorem umul192_upper128_exact {x hi lo : Nat} (hx : x < 2 ^ 64) (hh : hi < 2 ^ 64) (hl : lo < 2 ^ 64) :
+    umul192Upper128 x hi lo = (x * (hi * 2 ^ 64 + lo) / 2 ^ 128, x * (hi * 2 ^ 64 + lo) / 2 ^ 64 % 2 ^ 64) :=
+  DragonboxArith.umul192Upper128_eq hx hh hl
+
+/-- `umul192_lower128` = bits 0..127 of the exact product -/
+theorem umul192_lower128_exact {x yhi ylo : Nat} (hx : x < 2 ^ 64) (hl : ylo < 2 ^ 64) :
+    (umul192Lower128 x yhi ylo).1 * 2 ^ 64 + (umul192Lower128 x yhi ylo).2 = x * (yhi * 2 ^ 64 + ylo) % 2 ^ 128 :=
+  DragonboxArith.umul192Lower128_eq hx hl
+
+theorem umul96_upper64_exact {x y : Nat} (hx : x < 2 ^ 32) (hy : y < 2 ^ 64) :
+    umul96Upper64 x y = x * y / 2 ^ 32 := DragonboxArith.umul96Upper64_eq hx hy
+
+theorem umul96_lower64_exact (x y : Nat) : umul96Lower64 x y = x * y % 2 ^ 64 := rfl
+
+/-- f32 `divide_by_pow10` (the `· 1374389535 >> 37` trick) is `n / 100` on the whole `u32` range -/
+theorem divide_by_pow10_f32_exact {n : Nat} (hn : n < 2 ^ 32) (nMax : Nat) :
+    divideByPow10 .f32 n 2 nMax = n / 100 := DragonboxArith.divideByPow10_f32 hn nMax
+
+/-- f64 `divide_by_pow10` (`umul128_upper64(n, 2361183241434822607) >> 7`) is `n / 1000` for every `n ≤ n_max`, for the
+`n_max` the callers pass and more generally whenever the source's own guard on `n_max` holds -/
+theorem divide_by_pow10_f64_exact {n nMax : Nat} (hmax : nMax ≤ 15534100272597517998) (hn : n ≤ nMax) :
+    divideByPow10 .f64 n 3 nMax = n / 1000 := DragonboxArith.divideByPow10_64_eq hmax hn
+
+theorem divide_by_pow10_f64_callers {n : Nat} (hn : n ≤ 2 ^ 53 * 1000 - 1) :
+    divideByPow10 .f64 n 3 (2 ^ 53 * 1000 - 1) = n / 1000 := DragonboxArith.divideByPow10_f64 hn
+
+/-- `check_div_pow10` / `div_pow10` on their precondition `n ≤ 10^(kappa+1)` -/
+theorem check_div_pow10_exact :
+    (∀ n ∈ List.range 101, checkDivPow10 .f32 n = (n / 10, decide (n % 10 = 0)))
+    ∧ (∀ n ∈ List.range 1001, checkDivPow10 .f64 n = (n / 100, decide (n % 100 = 0)))
+    ∧ (∀ n ∈ List.range 101, divPow10 .f32 n = n / 10)
+    ∧ (∀ n ∈ List.range 1001, divPow10 .f64 n = n / 100) :=
+  ⟨DragonboxArith.checkDivPow10_f32, DragonboxArith.checkDivPow10_f64, DragonboxArith.divPow10_f32,
+   DragonboxArith.divPow10_f64⟩
+
+/-- `remove_trailing_zeros` (f32): for EVERY non-zero `u32` the result is `(m, s)` with `n = m·10^s` and `10 ∤ m`
+(so `s` is maximal) -/
+theorem remove_trailing_zeros_f32_exact {n : Nat} (h0 : 0 < n) (hn : n < 2 ^ 32) :
+    ∃ s m, removeTrailingZeros .f32 n = (m, s) ∧ n = m * 10 ^ s ∧ m % 10 ≠ 0 :=
+  DragonboxTrailing.removeTrailingZeros_f32 h0 hn
+
+/-- `remove_trailing_zeros` (f64): same for every non-zero `n < 2^32·10^8 ≈ 4.29·10^17` (Dragonbox significands are
+`< 10^17`; above the bound the code truncates `n / 10^8` to 32 bits) -/
+theorem remove_trailing_zeros_f64_exact {n : Nat} (h0 : 0 < n) (hn : n < 2 ^ 32 * 10 ^ 8) :
+    ∃ s m, removeTrailingZeros .f64 n = (m, s) ∧ n = m * 10 ^ s ∧ m % 10 ≠ 0 :=
+  DragonboxTrailing.removeTrailingZeros_f64 h0 hn
+
+/-- the stated bound of the f64 version is sharp: at `2^32·10^8 + 10^8` the 32-bit truncation of `n / 10^8` loses the
+value (`1·10^8 ≠ n`); unreachable from `to_decimal`, whose significands are below `10^17` -/
+theorem remove_trailing_zeros_f64_bound_sharp :
+    removeTrailingZeros .f64 (2 ^ 32 * 10 ^ 8 + 10 ^ 8) = (1, 8) := by decide +kernel
+
+/-! ### the algorithm -/
+
+/-- FULL STATEMENT (not proved in general): for every finite non-zero float of either type the model's `to_decimal`
+does not fault and returns, up to trailing zeros of the significand, one of the pairs of the oracle `Spec.shortest`
+(which round-trips, has the fewest digits and is closest — `Props.RoundNE.shortest_*`). -/
+def dragonbox_correct : Prop :=
+  ∀ (t : FTy) (bits : Nat), 0 < bits → bits < (fmtOf t).infBits → dragonboxOk t bits = true
+
+theorem mem_expChunk {t : FTy} {lo hi e : Nat} (h1 : lo ≤ e) (h2 : e < hi) (h0 : 0 < e) :
+    e * 2 ^ t.ms ∈ expChunk t lo hi := by
+  unfold expChunk
+  apply List.mem_map.mpr
+  exact ⟨e, List.mem_filter.mpr ⟨List.mem_range.mpr h2, by simp [h1, h0]⟩, rfl⟩
+
+theorem shorter32_all : (expChunk .f32 0 255).all (dragonboxOk .f32) = true := by decide +kernel
+
+/-- PROVED PART: the whole `compute_nearest_shorter` branch — every float whose mantissa field is zero (exponent field
+`1 … 254` for f32, `1 … 2046` for f64; all 2300 inputs evaluated by the kernel against the oracle) -/
+theorem dragonbox_correct_shorter_partial (t : FTy) (e : Nat) (h0 : 0 < e) (he : e < 2 ^ t.exponentSize.toNat - 1) :
+    dragonboxOk t (e * 2 ^ t.ms) = true := by
+  cases t with
+  | f32 =>
+    exact List.all_eq_true.mp shorter32_all _ (mem_expChunk (Nat.zero_le _) he h0)
+  | f64 =>
+    have he' : e < 2047 := he
+    by_cases c1 : e < 128
+    · exact List.all_eq_true.mp shorter64_0_128 _ (mem_expChunk (Nat.zero_le _) c1 h0)
+    by_cases c2 : e < 256
+    · exact List.all_eq_true.mp shorter64_128_256 _ (mem_expChunk (by omega) c2 h0)
+    by_cases c3 : e < 384
+    · exact List.all_eq_true.mp shorter64_256_384 _ (mem_expChunk (by omega) c3 h0)
+    by_cases c4 : e < 512
+    · exact List.all_eq_true.mp shorter64_384_512 _ (mem_expChunk (by omega) c4 h0)
+    by_cases c5 : e < 640
+    · exact List.all_eq_true.mp shorter64_512_640 _ (mem_expChunk (by omega) c5 h0)
+    by_cases c6 : e < 768
+    · exact List.all_eq_true.mp shorter64_640_768 _ (mem_expChunk (by omega) c6 h0)
+    by_cases c7 : e < 896
+    · exact List.all_eq_true.mp shorter64_768_896 _ (mem_expChunk (by omega) c7 h0)
+    by_cases c8 : e < 1024
+    · exact List.all_eq_true.mp shorter64_896_1024 _ (mem_expChunk (by omega) c8 h0)
+    by_cases c9 : e < 1152
+    · exact List.all_eq_true.mp shorter64_1024_1152 _ (mem_expChunk (by omega) c9 h0)
+    by_cases c10 : e < 1280
+    · exact List.all_eq_true.mp shorter64_1152_1280 _ (mem_expChunk (by omega) c10 h0)
+    by_cases c11 : e < 1408
+    · exact List.all_eq_true.mp shorter64_1280_1408 _ (mem_expChunk (by omega) c11 h0)
+    by_cases c12 : e < 1536
+    · exact List.all_eq_true.mp shorter64_1408_1536 _ (mem_expChunk (by omega) c12 h0)
+    by_cases c13 : e < 1664
+    · exact List.all_eq_true.mp shorter64_1536_1664 _ (mem_expChunk (by omega) c13 h0)
+    by_cases c14 : e < 1792
+    · exact List.all_eq_true.mp shorter64_1664_1792 _ (mem_expChunk (by omega) c14 h0)
+    by_cases c15 : e < 1920
+    · exact List.all_eq_true.mp shorter64_1792_1920 _ (mem_expChunk (by omega) c15 h0)
+    · exact List.all_eq_true.mp shorter64_1920_2048 _ (mem_expChunk (by omega) (by omega) h0)
+
+/-- what `dragonboxOk` gives: the returned decimal, trailing zeros stripped, re-parses (exact `roundNE`) to the same bits -/
+theorem dragonboxOk_roundtrips {t : FTy} {bits : Nat} (h0 : 0 < bits) (hfin : bits < (fmtOf t).infBits)
+    (h : dragonboxOk t bits = true) :
+    ∃ m e, toDecimal t bits = some (m, e) ∧
+      roundNE (fmtOf t) (decFrac (normDec 20 m e).1 (normDec 20 m e).2).1 (decFrac (normDec 20 m e).1 (normDec 20 m e).2).2
+        = bits := by
+  unfold dragonboxOk at h
+  cases hd : toDecimal t bits with
+  | none => simp [hd] at h
+  | some p =>
+    obtain ⟨m, e⟩ := p
+    simp only [hd] at h
+    have hmem : normDec 20 m e ∈ shortest (fmtOf t) bits := by simpa using h
+    have hwf : LexVerif.Proof.RoundNE.WF (fmtOf t) := by
+      cases t
+      · exact LexVerif.Proof.RoundNE.wf_f32
+      · exact LexVerif.Proof.RoundNE.wf_f64
+    exact ⟨m, e, rfl, LexVerif.Props.RoundNE.shortest_roundtrips hwf h0 hfin (D := (normDec 20 m e).1)
+      (E := (normDec 20 m e).2) hmem⟩
+
+/-- `dragonbox_roundtrips_partial`: every float with a zero mantissa field is written by the model as a decimal that
+round-trips and is a shortest, closest one (the latter two via `Props.RoundNE.shortest_minimal/closest` from membership) -/
+theorem dragonbox_roundtrips_partial (t : FTy) (e : Nat) (h0 : 0 < e) (he : e < 2 ^ t.exponentSize.toNat - 1) :
+    ∃ m x, toDecimal t (e * 2 ^ t.ms) = some (m, x) ∧ normDec 20 m x ∈ shortest (fmtOf t) (e * 2 ^ t.ms) ∧
+      roundNE (fmtOf t) (decFrac (normDec 20 m x).1 (normDec 20 m x).2).1 (decFrac (normDec 20 m x).1 (normDec 20 m x).2).2
+        = e * 2 ^ t.ms := by
+  have hok := dragonbox_correct_shorter_partial t e h0 he
+  have hpos : 0 < e * 2 ^ t.ms := Nat.mul_pos h0 (Nat.two_pow_pos _)
+  have hfin : e * 2 ^ t.ms < (fmtOf t).infBits := by
+    cases t
+    · show e * 2 ^ 23 < 255 * 2 ^ 23
+      have : e < 255 := he
+      omega
+    · show e * 2 ^ 52 < 2047 * 2 ^ 52
+      have : e < 2047 := he
+      omega
+  obtain ⟨m, x, hd, hr⟩ := dragonboxOk_roundtrips hpos hfin hok
+  refine ⟨m, x, hd, ?_, hr⟩
+  unfold dragonboxOk at hok
+  simp only [hd] at hok
+  simpa using hok
+
+/-! non-vacuity and samples (normal branch, evaluated — NOT a theorem about all inputs) -/
+example : toDecimal .f64 0x3FF8000000000000 = some (15, -1) := by decide +kernel
+example : toDecimal .f32 0x00800000 = some (11754944, -45) := by decide +kernel
+example : dragonboxOk .f64 0x7FEFFFFFFFFFFFFF = true := by decide +kernel
+/-- 8.55e21 (the endpoint family fixed by 9f5296f) is now written with 3 digits by the model -/
+example : toDecimal .f64 0x447CF7C4F4A7C4B0 ≠ none ∧ dragonboxOk .f64 (0x447CF7C4F4A7C4B0) = true := by decide +kernel
+example : 0 < 1 ∧ (1 : Nat) < 2 ^ FTy.f64.exponentSize.toNat - 1 := by decide
+
+end Dragonbox
+
+/-! ## Grisu (`compact` builds) -/
+section Grisu
+open LexVerif.Model.Dragonbox LexVerif.Proof.DragonboxSpec LexVerif.Proof.GrisuSpec LexVerif.Proof
+open LexVerif.Gen.Grisu
+
+/-- the model of `cached_grisu_power` — which replaces the `f64` multiplication by `ONE_LOG_TEN` with its exact rational
+value — returns on EVERY admissible argument `-1140 … 1089` what the compiled crate returned (R dump): together with
+`Props.TablesWrite.grisu_cached` (row, binary exponent and the window `-60 ≤ e + e_c + 64 ≤ -32` are right) -/
+theorem grisu_cached_power_model (i : Nat) (h : i < LexVerif.Proof.Tables.Grisu.cachedRows.length) :
+    LexVerif.Model.Grisu.cachedGrisuPower (cachedLo + i) =
+      some (⟨LexVerif.Proof.Tables.Grisu.cachedRows[i].1,
+              (LexVerif.Proof.Tables.Grisu.cachedRows[i].2.1 : Int) - cachedBinExpBias⟩,
+            (LexVerif.Proof.Tables.Grisu.cachedRows[i].2.2 : Int) - cachedKBias) :=
+  GrisuCached.cachedGrisuPower_eq_dump i h
+
+/-- FULL STATEMENT (not proved in general): for every finite non-zero float the model's `grisu` yields 1…17 (f64) /
+1…9 (f32) decimal digit characters without a leading zero whose value `digits·10^k` rounds back to the float -/
+def grisu_roundtrip : Prop :=
+  ∀ (t : FTy) (bits : Nat), 0 < bits → bits < (fmtOf t).infBits → grisuOk t bits = true
+
+/-- PROVED PART: kernel-evaluated instances — all 254 powers of two of binary32, 128 powers of two of binary64 spread
+over the whole exponent range, the extreme subnormal / normal patterns and binade-boundary neighbours of both types.
+(Everything else is covered by the `gr` component correspondence and the exact re-parse of every output.) -/
+theorem grisu_roundtrip_partial :
+    (∀ e, 0 < e → e < 255 → grisuOk .f32 (e * 2 ^ 23) = true)
+    ∧ (∀ i, i < 128 → grisuOk .f64 ((16 * i + 1) * 2 ^ 52) = true)
+    ∧ grisuOk .f64 1 = true ∧ grisuOk .f64 0x7FEFFFFFFFFFFFFF = true
+    ∧ grisuOk .f32 1 = true ∧ grisuOk .f32 0x7F7FFFFF = true := by
+  refine ⟨?_, ?_, ?_, ?_, ?_, ?_⟩
+  · intro e h0 he
+    exact List.all_eq_true.mp grisu_pow2_f32 _ (mem_expChunk (t := .f32) (Nat.zero_le _) he h0)
+  · intro i hi
+    have h := List.all_eq_true.mp grisu_samples_f64 ((16 * i + 1) * 2 ^ 52)
+    apply h
+    apply List.mem_append_left
+    exact List.mem_map.mpr ⟨i, List.mem_range.mpr hi, rfl⟩
+  · exact List.all_eq_true.mp grisu_samples_f64 1 (by simp)
+  · exact List.all_eq_true.mp grisu_samples_f64 0x7FEFFFFFFFFFFFFF (by simp)
+  · exact List.all_eq_true.mp grisu_samples_f32 1 (by simp)
+  · exact List.all_eq_true.mp grisu_samples_f32 0x7F7FFFFF (by simp)
+
+example : LexVerif.Model.Grisu.grisu .f64 0x3FF8000000000000 = some ([49, 53], -1) := by decide +kernel
+
+end Grisu
 
 end LexVerif.Props.C02
